@@ -720,6 +720,14 @@ Proof.
   exists [1;2;3]%Z, [4;5;6;7]%Z, [[4;5;6;7]%Z], Power, (Some (Some [4;5]%Z)).
   split; [reflexivity|split; [exact nofsync_torn|split; discriminate]].
 Qed.
+Lemma inplace_torn : (* same size, overwritten in place: a crash inside the write mixes new and old *)
+  In (Some (Some [4;5;3]%Z)) (crash_states Process tgt (init_fs (Some [1;2;3]%Z)) (inplace_ops [4;5;6]%Z)).
+Proof. vm_compute. auto 10. Qed.
+Lemma inplace_not_atomic : not_atomic (fun chunks => inplace_ops (concat chunks)).
+Proof.
+  exists [1;2;3]%Z, [4;5;6]%Z, [[4;5;6]%Z], Process, (Some (Some [4;5;3]%Z)).
+  split; [reflexivity|split; [exact inplace_torn|split; discriminate]].
+Qed.
 (* ... while a process crash alone does not need the fsync *)
 Lemma nofsync_process_ok :
   forall c, In c (crash_states Process tgt (init_fs (Some [1;2;3]%Z)) (store_ops_nofsync [[4;5;6;7]%Z])) ->
@@ -752,7 +760,7 @@ Lemma crash_prefixes_gen_mono l1 l2 os p :
 Proof.
   intros Hl; revert p; induction os as [|o t IH]; intros p H; cbn in *; auto.
   destruct H as [H|H]; auto. right. apply in_app_or in H; apply in_or_app. destruct H as [H|H].
-  - left. destruct o; cbn in *; auto. apply in_map_iff in H; destruct H as [k [<- Hk]]; apply in_map_iff; exists k; split; [reflexivity|apply Hl; exact Hk].
+  - left. destruct o; cbn in *; auto; (apply in_map_iff in H; destruct H as [k [<- Hk]]; apply in_map_iff; exists k; split; [reflexivity|apply Hl; exact Hk]).
   - right. apply in_map_iff in H; destruct H as [q [<- Hq]]; apply in_map; auto.
 Qed.
 
